@@ -5,7 +5,7 @@
 set -u
 P=$1; K=$2; PKG=$3; CHECKS=${4:-$P}
 . /verif/env.sh
-SRC=/tmp/seed/$P.out/$K
+SRC=${SEEDDIR:-/tmp/seed}/$P.out/$K
 MUT=/tmp/mut_${P}_${K}
 rm -rf $MUT; git -C /repo worktree prune; git -C /repo worktree add -q --detach $MUT HEAD || exit 2
 cd $MUT
